@@ -3,6 +3,7 @@ module verifharness
 go 1.23
 
 require (
+	github.com/pquerna/otp v1.4.0
 	github.com/volatiletech/authboss/v3 v3.0.0
 	golang.org/x/oauth2 v0.6.0
 )
@@ -10,7 +11,6 @@ require (
 require (
 	github.com/boombuler/barcode v1.0.1 // indirect
 	github.com/friendsofgo/errors v0.9.2 // indirect
-	github.com/pquerna/otp v1.4.0 // indirect
 	golang.org/x/crypto v0.17.0 // indirect
 )
 
